@@ -49,6 +49,23 @@ type Case struct {
 	Relay string         `json:"relay,omitempty"`
 	// Sess2, when set, logs a second user in through the SAME IdentityProvider and ServiceProvider values.
 	Sess2 *idpkit.Sess `json:"session2,omitempty"`
+	// Pending is the number of OTHER AuthnRequests the SP has outstanding when the response arrives (several
+	// tabs / flows, as samlsp's request tracker reports them); the answered request sits at position
+	// AnswerPos (mod Pending+1) of the list of possible request IDs.
+	Pending   int `json:"pending,omitempty"`
+	AnswerPos int `json:"answer_pos,omitempty"`
+	// Steps are further logins on the same long-lived IdentityProvider, registry and ServiceProvider values;
+	// before a step the SP may re-configure itself (new key pair, certificate dropped or added, entity ID
+	// set / unset, request signing) and re-register its freshly published metadata.
+	Steps []Step `json:"steps,omitempty"`
+}
+
+// Step is one further login of a sequence.
+type Step struct {
+	SP        *SPConf     `json:"sp,omitempty"` // nil = configuration and registration unchanged
+	Sess      idpkit.Sess `json:"session"`
+	Pending   int         `json:"pending,omitempty"`
+	AnswerPos int         `json:"answer_pos,omitempty"`
 }
 
 func excluded(slug string) bool { return os.Getenv("VERIF_EXCLUDE_"+slug) == "1" }
@@ -64,7 +81,7 @@ func text(t *rapid.T, label string) string {
 }
 
 func genSess(t *rapid.T) idpkit.Sess {
-	s := idpkit.Sess{ID: "sid-1", Index: "idx-" + rapid.StringMatching(`[a-z0-9]{6}`).Draw(t, "index")}
+	s := idpkit.Sess{ID: "sessionhandle0" + rapid.StringMatching(`[a-z0-9]{8}`).Draw(t, "session-id"), Index: "idx-" + rapid.StringMatching(`[a-z0-9]{6}`).Draw(t, "index")}
 	s.NameID = text(t, "nameid")
 	s.NameIDFormat = rapid.SampledFrom([]string{"", string(saml.EmailAddressNameIDFormat), string(saml.PersistentNameIDFormat), string(saml.UnspecifiedNameIDFormat), string(saml.TransientNameIDFormat)}).Draw(t, "nameid-format")
 	opt := func(label string) string {
@@ -129,12 +146,62 @@ func gen(t *rapid.T) Case {
 		s2 := genSess(t)
 		c.Sess2 = &s2
 	}
+	if rapid.IntRange(0, 2).Draw(t, "pending") == 0 {
+		c.Pending = rapid.IntRange(1, 3).Draw(t, "npending")
+		c.AnswerPos = rapid.IntRange(0, c.Pending).Draw(t, "answer-pos")
+	}
+	if rapid.IntRange(0, 3).Draw(t, "steps") == 0 {
+		cur := c.SP
+		for n := rapid.IntRange(1, 3).Draw(t, "nsteps"); n > 0; n-- {
+			st := Step{Sess: genSess(t)}
+			if rapid.IntRange(0, 3).Draw(t, "step-reconfigure") != 0 {
+				next := cur
+				switch rapid.IntRange(0, 4).Draw(t, "step-change") {
+				case 0: // key rotation
+					next.Key = map[string]string{"sp": "sp2", "sp2": "sp", "spec": "sp"}[cur.Key]
+					next.Cert = true
+				case 1: // certificate dropped
+					next.Cert, next.Signed = false, false
+				case 2: // certificate (re-)published
+					next.Cert = true
+				case 3: // entity ID set / unset / changed
+					next.EntityID = rapid.SampledFrom([]string{"", "urn:example:sp", "urn:example:sp:v2"}).Draw(t, "step-entity")
+				default:
+					next.Key = rapid.SampledFrom([]string{"sp", "sp2", "spec"}).Draw(t, "step-key")
+					next.Signed = next.Cert && rapid.Bool().Draw(t, "step-signed")
+					next.Binding = rapid.SampledFrom([]string{"redirect", "post"}).Draw(t, "step-binding")
+				}
+				if next.Key == "spec" && excluded("ECENC") {
+					next.Cert, next.Signed = false, false
+				}
+				if !next.Cert {
+					next.Signed = false
+				}
+				st.SP, cur = &next, next
+			}
+			if rapid.IntRange(0, 2).Draw(t, "step-pending") == 0 {
+				st.Pending = rapid.IntRange(1, 3).Draw(t, "step-npending")
+				st.AnswerPos = rapid.IntRange(0, st.Pending).Draw(t, "step-answer-pos")
+			}
+			c.Steps = append(c.Steps, st)
+		}
+	}
 	return c
 }
 
 // ---------------------------------------------------------------- run + oracle
 
 func (c Case) buildSP() *saml.ServiceProvider {
+	sp := &saml.ServiceProvider{}
+	c.SP.configure(sp)
+	return sp
+}
+
+// configure (re-)configures the long-lived ServiceProvider value in place; IDPMetadata is kept.
+func (conf SPConf) configure(dst *saml.ServiceProvider) {
+	c := Case{SP: conf}
+	idpMD := dst.IDPMetadata
+	defer func() { dst.IDPMetadata = idpMD }()
 	mu, _ := url.Parse("https://sp.example.com/saml/metadata")
 	au, _ := url.Parse("https://sp.example.com/saml/acs")
 	su, _ := url.Parse("https://sp.example.com/saml/slo")
@@ -171,7 +238,7 @@ func (c Case) buildSP() *saml.ServiceProvider {
 			sp.SignatureMethod = dsig.ECDSASHA256SignatureMethod
 		}
 	}
-	return sp
+	*dst = *sp
 }
 
 func privateErr(err error) string {
@@ -236,23 +303,60 @@ func check(c Case) (res pbt.Result) {
 	}
 	reg.M[spMD.EntityID] = spMD
 
-	res = c.login(idp, sp, sessions, c.Sess, res)
-	if res.Err != "" || c.Sess2 == nil {
+	if c.Pending > 0 {
+		res.Classes = append(res.Classes, fmt.Sprintf("pending-requests:%d", c.Pending), fmt.Sprintf("answered-position:%d/%d", c.AnswerPos%(c.Pending+1), c.Pending+1))
+	}
+	res = c.login(idp, sp, sessions, c.Sess, c.SP, c.Pending, c.AnswerPos, res)
+	if res.Err != "" {
 		return res
 	}
-	// a second user through the same IdentityProvider and ServiceProvider values
-	res.Classes = append(res.Classes, "sequence:second-login")
-	idp.Logger.(*idpkit.Quiet).Lines = nil
-	r2 := c.login(idp, sp, sessions, *c.Sess2, pbt.Result{})
-	if r2.Err != "" {
-		res.Err = "second login on the same IdP and SP values: " + r2.Err
+	steps := c.Steps
+	if c.Sess2 != nil {
+		steps = append([]Step{{Sess: *c.Sess2}}, steps...)
+	}
+	// further logins through the same IdentityProvider, registry and ServiceProvider values
+	conf := c.SP
+	for i, st := range steps {
+		res.Classes = append(res.Classes, "sequence:further-login")
 		res.NonTrivial = true
+		what := "unchanged registration"
+		if st.SP != nil {
+			was := conf
+			conf = *st.SP
+			conf.configure(sp)
+			md, mdXML, err := idpkit.RoundTrip(sp.Metadata())
+			if err != nil {
+				return fail("SP metadata does not survive xml.Marshal/Unmarshal: %v\n%s", err, mdXML)
+			}
+			for k := range reg.M {
+				delete(reg.M, k)
+			}
+			reg.M[md.EntityID] = md
+			what = fmt.Sprintf("SP re-registered: key %s->%s, certificate %v->%v, entity ID %q->%q", was.Key, conf.Key, was.Cert, conf.Cert, was.EntityID, conf.EntityID)
+			switch {
+			case was.Cert && conf.Cert && was.Key != conf.Key:
+				res.Classes = append(res.Classes, "re-registration:key-rotated")
+			case was.Cert && !conf.Cert:
+				res.Classes = append(res.Classes, "re-registration:certificate-dropped")
+			case !was.Cert && conf.Cert:
+				res.Classes = append(res.Classes, "re-registration:certificate-added")
+			}
+			if was.EntityID != conf.EntityID {
+				res.Classes = append(res.Classes, "re-registration:entity-id-changed")
+			}
+		}
+		idp.Logger.(*idpkit.Quiet).Lines = nil
+		r := c.login(idp, sp, sessions, st.Sess, conf, st.Pending, st.AnswerPos, pbt.Result{})
+		if r.Err != "" {
+			res.Err = fmt.Sprintf("login %d on the same IdentityProvider and ServiceProvider values (%s): %s", i+2, what, r.Err)
+			return res
+		}
 	}
 	return res
 }
 
 // login runs one SP -> IdP -> SP login for sess and compares what the SP returns with sess.
-func (c Case) login(idp *saml.IdentityProvider, sp *saml.ServiceProvider, sessions *idpkit.Sessions, sess idpkit.Sess, res pbt.Result) pbt.Result {
+func (c Case) login(idp *saml.IdentityProvider, sp *saml.ServiceProvider, sessions *idpkit.Sessions, sess idpkit.Sess, conf SPConf, pending, answerPos int, res pbt.Result) pbt.Result {
 	fail := func(f string, a ...any) pbt.Result {
 		res.Err = fmt.Sprintf(f, a...)
 		res.NonTrivial = true
@@ -261,9 +365,19 @@ func (c Case) login(idp *saml.IdentityProvider, sp *saml.ServiceProvider, sessio
 	sessions.S = sess.Session(fix.Epoch.Add(-1e9))
 	var err error
 
-	// the SP starts the login
+	// the SP starts the login (and possibly has other logins outstanding)
 	var httpReq *http.Request
 	var reqID string
+	var possible []string
+	pos := answerPos % (pending + 1)
+	if pos < 0 {
+		pos = -pos
+	}
+	other := func() {
+		if ar, err2 := sp.MakeAuthenticationRequest(sp.GetSSOBindingLocation(saml.HTTPRedirectBinding), saml.HTTPRedirectBinding, saml.HTTPPostBinding); err2 == nil {
+			possible = append(possible, ar.ID)
+		}
+	}
 	var stage string
 	var panicked any
 	var stack []byte
@@ -275,7 +389,10 @@ func (c Case) login(idp *saml.IdentityProvider, sp *saml.ServiceProvider, sessio
 			}
 		}()
 		stage = "SP request construction"
-		switch c.SP.Binding {
+		for i := 0; i < pos; i++ {
+			other()
+		}
+		switch conf.Binding {
 		case "redirect":
 			ar, err2 := sp.MakeAuthenticationRequest(sp.GetSSOBindingLocation(saml.HTTPRedirectBinding), saml.HTTPRedirectBinding, saml.HTTPPostBinding)
 			if err2 != nil {
@@ -309,6 +426,10 @@ func (c Case) login(idp *saml.IdentityProvider, sp *saml.ServiceProvider, sessio
 			httpReq.Header.Set("Content-Type", "application/x-www-form-urlencoded")
 		}
 		httpReq.RemoteAddr = "192.0.2.7:4711"
+		possible = append(possible, reqID)
+		for i := pos; i < pending; i++ {
+			other()
+		}
 		stage = "IdP ServeSSO"
 		idp.ServeSSO(rec, httpReq)
 	}()
@@ -336,6 +457,9 @@ func (c Case) login(idp *saml.IdentityProvider, sp *saml.ServiceProvider, sessio
 	if err != nil {
 		return fail("SAMLResponse is not base64: %v", err)
 	}
+	if len(sess.ID) >= 8 && (strings.Contains(string(raw), sess.ID) || strings.Contains(rec.Body.String(), sess.ID)) {
+		return fail("the session's ID %q (the IdP's internal session handle, not an attribute of the user) appears in the emitted response", sess.ID)
+	}
 
 	var assertion *saml.Assertion
 	func() {
@@ -344,7 +468,7 @@ func (c Case) login(idp *saml.IdentityProvider, sp *saml.ServiceProvider, sessio
 				panicked, stack = e, debug.Stack()
 			}
 		}()
-		assertion, err = sp.ParseXMLResponse(raw, []string{reqID}, sp.AcsURL)
+		assertion, err = sp.ParseXMLResponse(raw, possible, sp.AcsURL)
 	}()
 	if panicked != nil {
 		return fail("ParseXMLResponse panicked: %v\n%s", panicked, idpkit.CleanStack(stack, 8))
@@ -461,17 +585,72 @@ func enumConfigs(key string) func(string, func(Case)) {
 	}
 }
 
+// enumSequences: logins on one long-lived IdentityProvider / registry / ServiceProvider with the SP re-registering
+// in between (key rotation, certificate dropped / added, entity ID set / unset), and several outstanding request
+// IDs on the SP side with the answered one at every position.
+func enumSequences(_ string, emit func(Case)) {
+	user := func(i int) idpkit.Sess {
+		return idpkit.Sess{ID: fmt.Sprintf("sessionhandle0enum%04d", i), Index: fmt.Sprintf("i%d", i), NameID: fmt.Sprintf("user%d <&> \"q\"", i), UserName: fmt.Sprintf("u%d", i),
+			SubjectID: fmt.Sprintf("subject-%d", i), Groups: []string{"g", fmt.Sprintf("g%d", i)}, Custom: []idpkit.Attr{{Name: "n", FriendlyName: "f", Values: []string{fmt.Sprintf(" v%d ", i)}}}}
+	}
+	conf := func(key string, cert bool, ent string) *SPConf {
+		return &SPConf{Key: key, Cert: cert, EntityID: ent, Binding: "post"}
+	}
+	plans := [][]*SPConf{
+		{conf("sp", true, ""), conf("sp2", true, "")},                                                   // key rotation
+		{conf("sp", true, ""), conf("sp", false, "")},                                                   // certificate dropped
+		{conf("sp", false, ""), conf("sp", true, ""), conf("sp2", true, "")},                            // certificate added, then rotated
+		{conf("sp", true, ""), nil, conf("sp2", true, ""), nil},                                         // logins before and after the rotation
+		{conf("sp", true, ""), conf("sp", true, "urn:example:sp"), conf("sp2", true, "urn:example:sp")}, // entity ID set, then key rotated under it
+		{conf("sp", true, "urn:example:sp"), conf("sp2", true, ""), conf("sp", true, "urn:example:sp")}, // entity ID unset and set again with another key
+		{conf("sp", true, ""), conf("sp2", false, ""), conf("sp2", true, "")},
+	}
+	n := 0
+	for _, plan := range plans {
+		for _, binding := range []string{"redirect", "post"} {
+			for _, signer := range []bool{false, true} {
+				c := Case{IDP: idpkit.IDPConf{Base: "https://idp.example.com", Signer: signer}, SP: *plan[0], Sess: user(n), Relay: "rs"}
+				c.SP.Binding = binding
+				n++
+				for _, st := range plan[1:] {
+					step := Step{Sess: user(n)}
+					n++
+					if st != nil {
+						x := *st
+						x.Binding = binding
+						step.SP = &x
+					}
+					c.Steps = append(c.Steps, step)
+				}
+				emit(c)
+			}
+		}
+	}
+	for pending := 1; pending <= 3; pending++ {
+		for pos := 0; pos <= pending; pos++ {
+			for _, cert := range []bool{false, true} {
+				for _, binding := range []string{"redirect", "post"} {
+					emit(Case{IDP: idpkit.IDPConf{Base: "https://idp.example.com"}, SP: SPConf{Key: "sp", Cert: cert, Binding: binding}, Sess: user(n), Pending: pending, AnswerPos: pos,
+						Steps: []Step{{Sess: user(n + 1), Pending: pending, AnswerPos: pending - pos}}})
+					n += 2
+				}
+			}
+		}
+	}
+}
+
 var prop = &pbt.Prop[Case]{
 	ID: "C07",
 	Rule: "cases: one login SP -> IdP -> SP per case: session strings from every XML-1.0 class (markup, quotes, CR/LF/TAB, edge white space, CDATA/comment look-alikes, non-BMP, empty) in NameID, user fields, groups, custom attribute names / friendly names / values " +
 		"x SP config (entity ID set/unset, RSA-2048 / ECDSA P-256 key, certificate published or not = encryption on/off, redirect / POST request binding, signed / unsigned requests) x IdP config (Key or crypto.Signer, default + each RSA method, ECDSA methods through a Signer, intermediates); " +
 		"configuration fields no clause mentions are varied on both sides (SP: AuthnNameIDFormat, ForceAuthn, RequestedAuthnContext, LogoutBindings, MetadataValidDuration, AllowIDPInitiated, ACS URL with a query; IdP: LogoutURL, LoginURL, ValidDuration, form template, explicit assertion maker), and a third of the cases log a second user in through the same IdentityProvider and ServiceProvider values; " +
+		"a quarter of the cases continue with 1-3 further logins on the same long-lived IdentityProvider, registry and ServiceProvider values, the SP re-configuring itself in place (key rotation, certificate dropped / added, entity ID set / unset / changed, signing, binding) and re-registering its freshly published metadata in between; a third of the logins have 1-3 other request IDs outstanding on the SP side with the answered one at any position; the session ID (internal handle) must not appear in the emitted response; " +
 		"both sides are configured from xml.Unmarshal(xml.Marshal(peer.Metadata())); exhaustive: the configuration lattice with one session holding every character class in every position. " +
 		"non-trivial: at least one identity string outside plain ASCII. distinct: sha256 of the JSON case.",
 	Gen:   gen,
 	Check: check,
 	Reset: fix.Reset,
-	Enums: []pbt.Enum[Case]{{Name: "config-lattice-rsa-sp", Each: enumConfigs("sp")}, {Name: "config-lattice-ecdsa-sp", Each: enumConfigs("spec")}, {Name: "carriage-return-positions", Each: enumCR}},
+	Enums: []pbt.Enum[Case]{{Name: "config-lattice-rsa-sp", Each: enumConfigs("sp")}, {Name: "config-lattice-ecdsa-sp", Each: enumConfigs("spec")}, {Name: "carriage-return-positions", Each: enumCR}, {Name: "re-registration-and-pending-requests", Each: enumSequences}},
 	Assumptions: []string{
 		"strings XML 1.0 cannot represent are outside the domain (xgen produces representable ones only)",
 		"the expected attribute list is a reference mapping written from the documented default assertion maker: standard LDAP/eduPerson OIDs for the user fields that are set, custom attributes as given, groups, subject-id; the registered SP requests no attributes",
